@@ -45,7 +45,13 @@ for d in sorted(glob.glob(os.path.join(ROOT, 'seeded', 'C??-?'))):
         status = 'caught after strengthening'
     elif rc == 1:
         status = 'caught'
-X
+    elif rc == 0:
+        others = [k for k, v in (m.get('checks') or {}).items() if k != pid and v.get('quick_exit') == 1]
+        if others:
+            status = 'caught by ' + ', '.join(sorted(others)) + ' (not by ' + pid + ')'
+            sigs = (m['checks'][sorted(others)[0]].get('new_signatures') or [])
+        else:
+            status = 'NOT caught'
     else:
         status = 'exit %s' % rc
     rows.append((name, files, status, sigs, note, m.get('confirmed'), first))
